@@ -18,6 +18,7 @@ RULE = ("G-sim traces (1-3 host threads, 1-4 streams, kernels that start before 
 ASSUMPTIONS = ["well-formed regime (hv/wf.py)", "launch names as documented in the analyser: cudaLaunchKernel, cudaLaunchKernelExC, "
                "cudaMemcpyAsync, cudaMemsetAsync (driver-API cuLaunchKernel is not part of these statistics)",
                "pairs are those surviving the documented trimming of the trailing profiler step (hv/ref/load.py)"]
+FLOAT_KEYS = ["files"]          # fractional-time-unit workload class (hv/shard.py)
 PLAN = {"quick": {"shards": 16, "cases": 960, "timeout": 600}, "thorough": {"shards": 16, "cases": 10000, "timeout": 3000}}
 FLOORS = {"quick": {"distinct_nontrivial": 120, "pairs_judged": 2500, "clipped_delays": 600, "positive_delays": 800, "memory_pairs": 500,
                     "calls_without_memory": 150, "multi_rank_calls": 100, "calls_after_history": 150, "loads_including_last_step": 100},
